@@ -649,7 +649,7 @@ fn random_cases(e: &mut Eng, focus: Focus, n: u64, opts: JudgeOpts, pools: &[usi
                 (3, Some(t)) if t >= 4 && t <= u64::MAX as u128 => t as u64 - 1 - r.below(3) as u64,
                 _ => u64::MAX,
             };
-        } else if focus == Focus::Gas {
+        } else if focus == Focus::Gas || (focus == Focus::Compute && i % 5 == 4) {
             // first fix the cost function, then place the limit relative to the exact total
             vmgen::gas_setup(&mut r, &mut case, None);
             let limit = case.limit;
